@@ -12,7 +12,8 @@ class CodecUnit(Unit):
     `make_args(it)` builds the symbolic arguments (after the receiver, if `instance` is given)."""
 
     def __init__(self, name, qual, make_args, expect, props=(), instance=None, light=False, concrete_loops=False,
-                 requires=None, doc='', fields=None, max_paths=4000):
+                 requires=None, doc='', fields=None, max_paths=4000, receiver_cls=None):
+        self.receiver_cls = receiver_cls      # qualname of the (sub)class a classmethod is called on
         self.make_args = make_args
         self.expect = expect
         self.instance = instance          # (class qualname, make_init_args(it)) for methods on instances
@@ -32,7 +33,7 @@ class CodecUnit(Unit):
                 obj = it.instantiate(cls, init, {})
                 recv = [obj]
             elif f.kind == 'classmethod':
-                recv = [f.cls]
+                recv = [it.prog.func(receiver_cls) if receiver_cls else f.cls]
             return [], recv + args, {}, ctx
 
         def spec(c, *vals):
@@ -65,7 +66,8 @@ class CodecUnit(Unit):
     def _request(self, outcome, model):
         ctx = outcome.extra['ctx']
         args = [RP.jval(RP.concretize(model, a)) for a in ctx['args']]
-        req = {'kind': 'call', 'function': self.qual, 'args': args, 'cpu_s': 5.0}
+        fn = self.qual if not self.receiver_cls else self.receiver_cls + '.' + self.qual.rsplit('.', 1)[1]
+        req = {'kind': 'call', 'function': fn, 'args': args, 'cpu_s': 5.0}
         if self.instance is not None:
             req['instantiate'] = self.instance[0]
             req['init_args'] = [RP.jval(RP.concretize(model, a)) for a in ctx.get('init', [])]
